@@ -29,6 +29,7 @@ ASSUMPTIONS = ["M1-M5 of DESIGN.md section 2", "C05 (closed is final; the closer
 def run(ctx: Ctx) -> None:
     roles = find_roles(ctx)
     r1_r2(ctx, roles)
+    client_binding(ctx, roles)
     r3(ctx, roles)
 
 
@@ -147,6 +148,66 @@ def r1_r2(ctx: Ctx, roles) -> None:
     # argument is the graceful marker
     arg_ok = len(call.args) == 1 and isinstance(call.args[0], ast.Attribute) and call.args[0].attr == "_expected_disconnect" and norm(call.args[0].value) == "self"
     ctx.ob("C07.R3", closer, "callback argument is the graceful marker", arg_ok, f"called with {[norm(a) for a in call.args]}", node=call)
+
+
+def client_binding(ctx: Ctx, roles) -> None:
+    """The callback 'given at connect time' is bound to THAT connection: the client hands the connection a hook
+    carrying the start_connection argument by value (partial), and the hook invokes only what it was given -
+    never a callback remembered in client state (which would leak into a later session started without one)."""
+    res = resolver(ctx)
+    client = ctx.repo.cls("APIClient")
+    start = client.methods.get("start_connection")
+    ctx.require(start is not None, "APIClient.start_connection missing")
+    cb_param = [a for a in start.param_names() if a != "self"]
+    ctx.require(len(cb_param) >= 1, "APIClient.start_connection takes no stop callback")
+    cbp = cb_param[0]
+    ctors = [c for c in own_nodes(start.node) if isinstance(c, ast.Call) and res.callees(start, c).kind == "ctor" and res.callees(start, c).cls is roles.conn]
+    ctx.ob("C07.R1", start, "the client constructs exactly one connection per start_connection()", len(ctors) == 1, f"{len(ctors)}")
+    if len(ctors) != 1:
+        return
+    hook_arg = ctors[0].args[1] if len(ctors[0].args) >= 2 else next((k.value for k in ctors[0].keywords if k.arg == "on_stop"), None)
+    hook = None
+    bound = []
+    if isinstance(hook_arg, ast.Call) and norm(hook_arg.func).split(".")[-1] == "partial" and hook_arg.args:
+        cv = res._callable_value(start, hook_arg.args[0])
+        hook = cv.funcs[0] if cv is not None and len(cv.funcs) == 1 else None
+        bound = hook_arg.args[1:]
+    elif hook_arg is not None:
+        cv = res._callable_value(start, hook_arg)
+        hook = cv.funcs[0] if cv is not None and len(cv.funcs) == 1 else None
+    if hook is None:
+        ctx.ob("C07.R1", start, "the connection's stop hook is a client method", False, f"hook argument {norm(hook_arg) if hook_arg is not None else None}")
+        return
+    hp = [a for a in hook.param_names() if a != "self"]
+    user_calls = []
+    for c in own_nodes(hook.node):
+        if isinstance(c, ast.Call):
+            k = res.callees(hook, c)
+            if k.kind in ("value", "unknown") and not (isinstance(c.func, ast.Attribute) and norm(c.func.value).startswith("_LOGGER")):
+                user_calls.append(c)
+    ctx.ob("C07.R1", hook, "the client's stop hook invokes the user's callback at one site", len(user_calls) == 1, f"user-code calls in the hook: {[norm(c)[:50] for c in user_calls]}")
+    g = cfg_of(ctx, start)
+    ctor_nodes = [n for n in g.reachable() if n.ast is not None and n.kind == "stmt" and any(x is ctors[0] for x in walk_own(n.ast))]
+    for c in user_calls:
+        f = c.func
+        src: ast.expr | None = f
+        if isinstance(f, ast.Name) and f.id not in hp:
+            asg = [n.value for n in own_nodes(hook.node) if (isinstance(n, ast.NamedExpr) and n.target.id == f.id) or (isinstance(n, ast.Assign) and any(isinstance(t, ast.Name) and t.id == f.id for t in n.targets))]
+            src = asg[0] if len(asg) == 1 else None
+        if isinstance(src, ast.Name) and src.id in hp:
+            # (a) bound by value: the partial's argument at that position must be this call's parameter
+            idx = hp.index(src.id)
+            ok = idx < len(bound) and isinstance(bound[idx], ast.Name) and bound[idx].id == cbp
+            ctx.ob("C07.R1", start, "the hook is given this call's callback by value", ok, f"hook argument {norm(hook_arg)}: parameter {src.id} of the hook is not bound to `{cbp}`")
+        elif isinstance(src, ast.Attribute) and norm(src.value) == "self":
+            # (b) remembered in client state: then every start_connection() must overwrite it with its own argument
+            attr = src.attr
+            ev = occurred_before(g, lambda n: ["stored"] if n.kind == "stmt" and isinstance(n.ast, ast.Assign) and any(isinstance(t, ast.Attribute) and t.attr == attr and norm(t.value) == "self" for t in n.ast.targets) and isinstance(n.ast.value, ast.Name) and n.ast.value.id == cbp else [])
+            ok = bool(ctor_nodes) and all("stored" in ev.get(n, frozenset()) for n in ctor_nodes)
+            others = [fn.qualname for fn in ctx.repo.funcs_in("client") for st, tgt, val in attr_writes(fn, attr) if fn is not start and fn.name != "__init__"]
+            ctx.ob("C07.R1", start, f"the remembered callback self.{attr} is overwritten with this call's argument on every path (also with None)", ok and not others, f"self.{attr} keeps the callback of an earlier session when this one is started without one: it would be called again for a session it was not given for (other writers: {others})")
+        else:
+            ctx.ob("C07.R1", hook, "the callback invoked by the hook is this session's", False, f"callee {norm(f)} is neither a bound parameter nor a per-session attribute")
 
 
 def r3(ctx: Ctx, roles) -> None:
